@@ -97,7 +97,6 @@ Definition comp_decode (crc : bytes -> N) (decompress : N -> bytes -> option byt
    run_line).  A stack is a base store wrapped in layers. *)
 Section Machine.
 Variable C : Type.
-Variable cempty : C -> bool.      (* zero-length content *)
 Variable csize : C -> N.          (* length used by the cache's size threshold *)
 
 Record codec := { enc : C -> C; dec : C -> option C }.
@@ -144,8 +143,9 @@ Fixpoint last_entry (id : N) (q : list entry) : option entry :=
 Fixpoint sput (s : sstate) (id : N) (c : C) : sstate :=
   match s with
   | SBase BFs m => SBase BFs (aset id c m)
-  (* sql: DeletePartContentById, then one row per non-empty chunk: no rows for empty content *)
-  | SBase BSql m => SBase BSql (if cempty c then adel id m else aset id c (adel id m))
+  (* sql: DeletePartContentById, then one row per non-empty chunk, an empty chunk 0 for a
+     zero-length part *)
+  | SBase BSql m => SBase BSql (aset id c (adel id m))
   | SCodec k s' => SCodec k (sput s' id (enc k c))
   | SCache max cm h s' =>
       if csize c <=? max then SCache max (aset id c cm) (removeN id h) (sput s' id c)
@@ -341,7 +341,6 @@ Fixpoint sd_compressible (d : sd) : bool :=
   | SComp a d' => if a =? 0 then sd_compressible d' else false
   | STink _ => false
   end.
-Definition sd_empty (d : sd) : bool := match sd_size d with Some 0 => true | _ => false end.
 (* size seen by the cache threshold; compressed streams of the generated contents are tiny *)
 Definition sd_csize (d : sd) : N := match sd_size d with Some n => n | None => 64 end.
 
@@ -450,6 +449,6 @@ Definition run_line (l : bytes) : bytes :=
   | [b; ls; os] =>
       do s <- parse_stack b ls;
       do ops <- mapM parse_op (split_on ";"%byte os);
-      join B";" (map show_out (run sd sd_empty sd_csize s ops))
+      join B";" (map show_out (run sd sd_csize s ops))
   | _ => parse_error
   end.
